@@ -16,7 +16,7 @@ Definition den (tb' : tables) (i : tid) (ix ov : option val) : Prop := tl_get (t
 Definition stable (tb1 : tables) (P : tables -> Prop) : Prop := forall tb', tb_ext tb1 tb' -> P tb'.
 
 Lemma den_some tb' i n v : nth_error (tget tb' i) (N.to_nat n) = Some v -> den tb' i (Some (VN n)) (Some v).
-Proof. intros H. unfold den, tl_get. rewrite lst_tbs, H. reflexivity. Qed.
+Proof. intros H. unfold den, tl_get. rewrite nthN_spec, lst_tbs, H. reflexivity. Qed.
 Lemma den_none tb' i : den tb' i None None.
 Proof. reflexivity. Qed.
 
